@@ -54,6 +54,8 @@ type callRec struct {
 	Rejected  string // not forwarded to the master: why
 	MesosSt   string // KILL: state the master held for the task
 	TaskAlive bool
+	VT        time.Duration // virtual time of the call
+	Class     string        // KILL: class of the task
 }
 
 // sim is the per-execution state shared by all lives.
@@ -81,6 +83,7 @@ type sim struct {
 	crashed   bool
 	faultAt   string // description of the chosen fault point
 	drops     int
+	slowKill  time.Duration // the master takes this long to answer a KILL call (the caller waits)
 }
 
 func newSim(m *coresim.Master) *sim {
@@ -293,9 +296,11 @@ func (l *link) Call(ctx context.Context, c *scheduler.Call) (mesos.Response, err
 		rec.Owner = s.owner(l.life, id)
 		_, rec.Recon = s.recon[l.life][id]
 		rec.Teardown = s.teardown[rec.Owner]
+		rec.VT = vrt.VNow()
 		if t := s.m.Tasks[id]; t != nil {
-			rec.MesosSt, rec.TaskAlive = t.MesosState.String(), t.Alive
+			rec.MesosSt, rec.TaskAlive, rec.Class = t.MesosState.String(), t.Alive, t.Class
 		}
+
 		if s.taskFID[id] != rec.FID {
 			rec.Rejected = "task belongs to another framework"
 			s.calls = append(s.calls, rec)
@@ -312,7 +317,11 @@ func (l *link) Call(ctx context.Context, c *scheduler.Call) (mesos.Response, err
 				TaskID: mesos.TaskID{Value: id}, State: &st, AgentID: agent, Reason: &r, Source: mesos.SOURCE_MASTER.Enum()}}})
 			return nullResp{}, nil
 		}
-		return s.m.Call(ctx, c)
+		resp, err := s.m.Call(ctx, c)
+		if s.slowKill > 0 {
+			vrt.Sleep(s.slowKill) // the master acted at once, its answer to the call takes its time
+		}
+		return resp, err
 	case scheduler.Call_ACKNOWLEDGE:
 		rec.Task = c.GetAcknowledge().GetTaskID().Value
 		delete(s.unacked, string(c.GetAcknowledge().GetUUID()))
@@ -785,6 +794,85 @@ func reconnectScenario(name string, sh shape, q, t vrt.Bounds) *vrt.Scenario {
 		Doc:        fmt.Sprintf("subscription dropped after every call and at every idle step boundary of script %v (shape %s); the core resubscribes and reconciles", sh.script, sh.name)}
 }
 
+// ---------------------------------------------------------------------------------------
+// reconnection while two environments are busy: A is being torn down against a master that is slow
+// to answer KILL calls, B is being created, and the connection breaks in between.
+
+func overlapScenario(name string, q, t vrt.Bounds) *vrt.Scenario {
+	var s *sim
+	var reached bool
+	var createAt time.Duration
+	var errB error
+	var stB, idB string
+	body := func() {
+		reached, errB, stB, idB = false, nil, "", ""
+		m := coresim.NewMaster(agents()...)
+		s = newSim(m)
+		w := &coresim.World{M: m}
+		startCore(w, s)
+		idA, _, err := w.Create("c18-one", nil)
+		if err != nil {
+			vrt.Logf("setup failed: %v", err)
+			return
+		}
+		s.slowKill = time.Second
+		order := vrt.ChooseFree(2, "who-comes-first") // 0: destroy A first, then create B; 1: the other way round
+		var wg vrt.WaitGroup
+		wg.Add(3)
+		vrt.GoFG("destroyA", func() {
+			if order == 1 {
+				vrt.Sleep(200 * time.Millisecond)
+			}
+			s.teardown[idA] = true
+			_ = w.Destroy(idA, true, true, false)
+			wg.Done()
+		})
+		vrt.GoFG("createB", func() {
+			if order == 0 {
+				vrt.Sleep(200 * time.Millisecond)
+			}
+			createAt = vrt.VNow()
+			idB, stB, errB = w.Create("c18-b", nil)
+			wg.Done()
+		})
+		vrt.GoFG("connection", func() {
+			vrt.Sleep(time.Duration(300+200*vrt.ChooseFree(4, "drop-at")) * time.Millisecond)
+			s.faultAt = fmt.Sprintf("at %v", vrt.VNow())
+			s.breakConnection()
+			wg.Done()
+		})
+		wg.Wait()
+		settle(2 * statusRetry)
+		reached = true
+		vrt.Logf("overlap order=%d drop %s | create B: id=%s state=%s err=%v", order, s.faultAt, idB, stB, errB != nil)
+	}
+	check := func(x *vrt.Exec) (out []vrt.Violation) {
+		dump(x, s)
+		if !reached {
+			return nil
+		}
+		ctx := strings.Join(x.Log, "\n")
+		out = append(out, ownedKills(s, "reconnect-overlap", ctx)...)
+		// B's task belongs to a live environment from the moment it is launched for it: nobody asked for
+		// B's teardown, and B cannot have failed on its own yet (its deployment timeout is 30 s)
+		for _, c := range s.calls {
+			if c.Type == "KILL" && c.Class == "c18b0" && c.Recon && c.VT < createAt+25*time.Second {
+				out = append(out, vrt.Violation{Clause: "reconciliation-kills-task-of-live-environment:launched-not-yet-in-roster",
+					Detail: fmt.Sprintf("life %d call #%d KILL %s at %v: launched for environment B (created from %v on, no teardown requested), the master had answered the implicit reconciliation with %s for it\n%s",
+						c.Life, c.N, c.Task, c.VT, createAt, s.recon[c.Life][c.Task], ctx)})
+				break
+			}
+		}
+		return
+	}
+	return &vrt.Scenario{Name: name, Prop: "C18", Body: body, Check: check, Quick: q, Thorough: t,
+		Setup:          coresim.ResetStore,
+		Cfg:            vrt.Config{Preempt: coresim.InterComponent, FreeSwitchCost: true, Horizon: 30 * time.Minute},
+		DeadlockClause: "reconnect:hang", PanicClause: "panic",
+		NonTrivial: func(x *vrt.Exec) bool { return reached && s.drops > 0 },
+		Doc:        "environment A torn down against a master that takes 1 s per KILL call, environment B created 200 ms earlier/later, the subscription dropped at 300/500/700/900 ms; the core resubscribes and reconciles"}
+}
+
 func dump(x *vrt.Exec, s *sim) {
 	if os.Getenv("C18_DUMP") != "" {
 		fmt.Fprintln(os.Stderr, strings.Join(x.Log, "\n"))
@@ -828,5 +916,6 @@ func main() {
 		reconnectScenario("reconnect-one", shapes["one"], q0, t2),
 		reconnectScenario("reconnect-two", shapes["two"], q0, t1),
 		reconnectScenario("reconnect-envs", shapes["envs"], q0, t1),
+		overlapScenario("reconnect-overlap", q0, t1),
 	})
 }
